@@ -23,6 +23,7 @@ import PGProofs.DemePerm
 import PGProofs.VanLoan
 import PGProofs.RewardsThm
 import PGProofs.Labelled
+import PGProofs.ConfigThm
 
 set_option linter.all false
 set_option pp.fieldNotation.generalized false
@@ -69,6 +70,33 @@ theorem particle_order_irrelevant : ∀ {T : Type u_1} [inst : DecidableEq T] [F
 /-- per-deme fractions sum to one -/
 theorem deme_rewards_sum_one : ∀ (n : ℕ) (s : State) (D : ℕ), 0 < State.total s → (∀ l < State.nLoci s, List.length (List.getD s.lin l []) = D) → ∑ d ∈ Finset.range D, Reward.eval n s (Reward.deme d) = 1 := @PG.deme_rewards_sum_one
 
+/-- INPUT GLUE: position i of the size vector, migration matrix, initial vector and DemeReward index built from the user's containers is about the population NAMED axis[i] (any shapes, unsorted names, unsampled demes appended in ANY set order) -/
+theorem glue_named_semantics : ∀ (I : Config.Input) (t : ℚ), List.Nodup (Config.Input.linNames I) → Config.ValidSetOrder I → Config.NamedSemantics Config.Variant.current I t := @PG.Config.config_named_semantics
+
+/-- listing the populations in another order in the sample dict / size dict / migration dict, listing unsampled ones with 0 or omitting them, any set iteration order: the tables are the name-matching permutation (permTs / permMig / permC) of each other -/
+theorem glue_listing_order : ∀ (I I' : Config.Input), List.Nodup (Config.Input.linNames I) → Config.ValidSetOrder I → List.Nodup (Config.Input.linNames I') → Config.ValidSetOrder I' → List.Perm I'.sizes I.sizes → List.Nodup (List.map (fun x ↦ x.1) I.sizes) → List.Perm I'.mig I.mig → List.Nodup (List.map (fun x ↦ x.1) I.mig) → List.Perm (List.filter (fun e ↦ decide (e.2 ≠ 0)) (Config.NInput.toDict I'.n)) (List.filter (fun e ↦ decide (e.2 ≠ 0)) (Config.NInput.toDict I.n)) → (∀ p ∈ Config.Input.linNames I, Config.nOf I p = 0 → p ∈ Config.Input.linNames I' ∨ p ∈ Config.rawDemNames I.sizes I.mig) → (∀ p ∈ Config.Input.linNames I', Config.nOf I' p = 0 → p ∈ Config.Input.linNames I ∨ p ∈ Config.rawDemNames I.sizes I.mig) → List.length (Config.axis I') = List.length (Config.axis I) ∧ ∃ σ, (∀ (i : Fin (List.length (Config.axis I))), ↑(σ i) = List.idxOf (Config.axis I)[i] (Config.axis I') ∧ (Config.axis I')[↑(σ i)]? = some (Config.axis I)[i]) ∧ (∀ (t : ℚ), Config.sizesFn Config.Variant.current I' t (List.length (Config.axis I)) = DemePerm.permTs σ (Config.sizesFn Config.Variant.current I t (List.length (Config.axis I)))) ∧ (∀ (t : ℚ), Config.migFn Config.Variant.current I' t (List.length (Config.axis I)) = DemePerm.permMig σ (Config.migFn Config.Variant.current I t (List.length (Config.axis I)))) ∧ Config.initFn I' (List.length (Config.axis I)) = DemePerm.permC σ (Config.initFn I (List.length (Config.axis I))) ∧ ∀ (i : Fin (List.length (Config.axis I))), Config.demeIndex Config.Variant.current I (Config.axis I)[i] = ↑i ∧ Config.demeIndex Config.Variant.current I' (Config.axis I)[i] = ↑(σ i) := @PG.Config.config_listing_order_irrelevant
+
+/-- a consistent injective renaming yields the name-matching permutation of the same tables (sorting may move the axis) -/
+theorem glue_rename : ∀ (I : Config.Input) (ρ : Config.Name → Config.Name), Function.Injective ρ → ∀ (so' : List Config.Name), List.Nodup (Config.Input.linNames I) → Config.ValidSetOrder I → Config.ValidSetOrder (Config.renameInput ρ I so') → List.length (Config.axis (Config.renameInput ρ I so')) = List.length (Config.axis I) ∧ ∃ σ, (∀ (i : Fin (List.length (Config.axis I))), ↑(σ i) = List.idxOf (ρ (Config.axis I)[i]) (Config.axis (Config.renameInput ρ I so')) ∧ (Config.axis (Config.renameInput ρ I so'))[↑(σ i)]? = some (ρ (Config.axis I)[i])) ∧ (∀ (t : ℚ), Config.sizesFn Config.Variant.current (Config.renameInput ρ I so') t (List.length (Config.axis I)) = DemePerm.permTs σ (Config.sizesFn Config.Variant.current I t (List.length (Config.axis I)))) ∧ (∀ (t : ℚ), Config.migFn Config.Variant.current (Config.renameInput ρ I so') t (List.length (Config.axis I)) = DemePerm.permMig σ (Config.migFn Config.Variant.current I t (List.length (Config.axis I)))) ∧ Config.initFn (Config.renameInput ρ I so') (List.length (Config.axis I)) = DemePerm.permC σ (Config.initFn I (List.length (Config.axis I))) ∧ ∀ (i : Fin (List.length (Config.axis I))), Config.demeIndex Config.Variant.current I (Config.axis I)[i] = ↑i ∧ Config.demeIndex Config.Variant.current (Config.renameInput ρ I so') (ρ (Config.axis I)[i]) = ↑(σ i) := @PG.Config.config_rename_equivariant
+
+/-- the values attached to a name do not depend on the iteration order of the Python set of unsampled names -/
+theorem glue_hash_independent : ∀ (I : Config.Input) (so so' : List Config.Name) (t : ℚ), List.Nodup (Config.Input.linNames I) → Config.ValidSetOrder { n := I.n, sizes := I.sizes, mig := I.mig, setOrder := so } → Config.ValidSetOrder { n := I.n, sizes := I.sizes, mig := I.mig, setOrder := so' } → (∀ (p : Config.Name), p ∈ Config.axis { n := I.n, sizes := I.sizes, mig := I.mig, setOrder := so } ↔ p ∈ Config.axis { n := I.n, sizes := I.sizes, mig := I.mig, setOrder := so' }) ∧ ∀ p ∈ Config.axis { n := I.n, sizes := I.sizes, mig := I.mig, setOrder := so }, List.getD (Config.epochTable Config.Variant.current { n := I.n, sizes := I.sizes, mig := I.mig, setOrder := so } t).1 (Config.demeIndex Config.Variant.current { n := I.n, sizes := I.sizes, mig := I.mig, setOrder := so } p) 0 = List.getD (Config.epochTable Config.Variant.current { n := I.n, sizes := I.sizes, mig := I.mig, setOrder := so' } t).1 (Config.demeIndex Config.Variant.current { n := I.n, sizes := I.sizes, mig := I.mig, setOrder := so' } p) 0 ∧ (∀ q ∈ Config.axis { n := I.n, sizes := I.sizes, mig := I.mig, setOrder := so }, List.getD (List.getD (Config.epochTable Config.Variant.current { n := I.n, sizes := I.sizes, mig := I.mig, setOrder := so } t).2 (Config.demeIndex Config.Variant.current { n := I.n, sizes := I.sizes, mig := I.mig, setOrder := so } p) []) (Config.demeIndex Config.Variant.current { n := I.n, sizes := I.sizes, mig := I.mig, setOrder := so } q) 0 = List.getD (List.getD (Config.epochTable Config.Variant.current { n := I.n, sizes := I.sizes, mig := I.mig, setOrder := so' } t).2 (Config.demeIndex Config.Variant.current { n := I.n, sizes := I.sizes, mig := I.mig, setOrder := so' } p) []) (Config.demeIndex Config.Variant.current { n := I.n, sizes := I.sizes, mig := I.mig, setOrder := so' } q) 0) ∧ List.getD (Config.initVec { n := I.n, sizes := I.sizes, mig := I.mig, setOrder := so }) (Config.demeIndex Config.Variant.current { n := I.n, sizes := I.sizes, mig := I.mig, setOrder := so } p) 0 = List.getD (Config.initVec { n := I.n, sizes := I.sizes, mig := I.mig, setOrder := so' }) (Config.demeIndex Config.Variant.current { n := I.n, sizes := I.sizes, mig := I.mig, setOrder := so' } p) 0 := @PG.Config.config_hash_independent
+
+/-- glue + state level composed: moments of DemeReward(name) built from two listings of the same named input are equal (instantiates C08_moments_deme) -/
+theorem glue_to_moments : ∀ {K : Type} [inst : Field K] [inst_1 : LinearOrder K] [inst_2 : IsStrictOrderedRing K] (I I' : Config.Input), List.Nodup (Config.Input.linNames I) → Config.ValidSetOrder I → List.Nodup (Config.Input.linNames I') → Config.ValidSetOrder I' → List.Perm I'.sizes I.sizes → List.Nodup (List.map (fun x ↦ x.1) I.sizes) → List.Perm I'.mig I.mig → List.Nodup (List.map (fun x ↦ x.1) I.mig) → List.Perm (List.filter (fun e ↦ decide (e.2 ≠ 0)) (Config.NInput.toDict I'.n)) (List.filter (fun e ↦ decide (e.2 ≠ 0)) (Config.NInput.toDict I.n)) → (∀ p ∈ Config.Input.linNames I, Config.nOf I p = 0 → p ∈ Config.Input.linNames I' ∨ p ∈ Config.rawDemNames I.sizes I.mig) → (∀ p ∈ Config.Input.linNames I', Config.nOf I' p = 0 → p ∈ Config.Input.linNames I ∨ p ∈ Config.rawDemNames I.sizes I.mig) → ∀ {m : Model} (tsOf : ℚ → ℚ) (te : ℕ → ℚ) {cinit cinit' : Fin (List.length (Config.axis I)) → ℕ} {r r' : ℕ → ℚ} {fuel fuel' : ℕ → ℕ} {G G' : ℕ → Graph}, (∀ (e : ℕ), bfs (transit m (mkEpoch (fun d ↦ tsOf (Config.sizesFn Config.Variant.current I (te e) (List.length (Config.axis I)) d)) (Config.migFn Config.Variant.current I (te e) (List.length (Config.axis I))) (r e))) (encLC cinit) (fuel e) = some (G e)) → (∀ (e : ℕ), bfs (transit m (mkEpoch (fun d ↦ tsOf (Config.sizesFn Config.Variant.current I' (te e) (List.length (Config.axis I)) d)) (Config.migFn Config.Variant.current I' (te e) (List.length (Config.axis I))) (r' e))) (encLC cinit') (fuel' e) = some (G' e)) → ∑ d, cinit' d = ∑ d, cinit d → ∀ (L : ExpLaw K) (n : ℕ) {k : ℕ} (names : Fin k → Config.Name), (∀ (a : Fin k), names a ∈ Config.axis I) → ∑ d, Config.initFn I (List.length (Config.axis I)) d = ∑ d, cinit d → ∀ (fs : List (ℕ × K)), accumVal L (fun e ↦ Matrix.map (Assembly.codeMat G' e) fun q ↦ ↑q) (fun a j ↦ ↑(Reward.eval n (G' 0).visited[j] (Reward.deme (Config.demeIndex Config.Variant.current I' (names a))))) (fun j ↦ ↑(List.getD (alphaVec (G' 0).visited (List.ofFn (Config.initFn I' (List.length (Config.axis I)))) 1 0) (↑j) 0)) fs = accumVal L (fun e ↦ Matrix.map (Assembly.codeMat G e) fun q ↦ ↑q) (fun a i ↦ ↑(Reward.eval n (G 0).visited[i] (Reward.deme (Config.demeIndex Config.Variant.current I (names a))))) (fun i ↦ ↑(List.getD (alphaVec (G 0).visited (List.ofFn (Config.initFn I (List.length (Config.axis I)))) 1 0) (↑i) 0)) fs := @PG.Config.config_moments_listing_order_irrelevant
+
+/-- kernel-checked: looking sizes up by dict position attaches them to the wrong name -/
+theorem glue_sizes_by_dict_order_defect : ¬Config.NamedSemantics Config.Variant.sizesByDictOrder Config.exInput 0 ∧ (Config.epochTable Config.Variant.sizesByDictOrder Config.exInput 0).1 = [7, 2, 5, 3] ∧ (Config.epochTable Config.Variant.sizesByDictOrder Config.exInput 0).1[0]? ≠ some (Config.sizeAt Config.exInput.sizes "pop_10" 0) := @PG.Config.sizesByDictOrder_violates
+
+/-- kernel-checked: indexing the sorted epoch names in migrate_unlinked attaches rates to the wrong pair -/
+theorem glue_mig_by_sorted_names_defect : ¬Config.NamedSemantics Config.Variant.migBySortedNames Config.exInput 0 ∧ (Config.epochTable Config.Variant.migBySortedNames Config.exInput 0).2 = [[0, 0, 0, 1 / 2], [0, 0, 1 / 5, 0], [1 / 3, 0, 0, 0], [0, 0, 0, 0]] ∧ (Option.bind (Config.epochTable Config.Variant.migBySortedNames Config.exInput 0).2[0]? fun x ↦ x[1]?) ≠ some (Config.rateAt Config.exInput.mig ("pop_10", "B") 0) := @PG.Config.migBySortedNames_violates
+
+/-- kernel-checked: the pre-fix DemeReward lookup -/
+theorem glue_deme_reward_sorted_defect : ¬Config.NamedSemantics Config.Variant.demeRewardBySortedNames Config.exInput 0 ∧ Config.demeIndex Config.Variant.demeRewardBySortedNames Config.exInput "pop_10" = 2 ∧ Config.demeIndex Config.Variant.current Config.exInput "pop_10" = 0 := @PG.Config.demeRewardBySortedNames_violates
+
+/-- a 4-deme instance with unsorted names and two omitted populations satisfies the hypotheses and the conclusion -/
+theorem glue_nonvacuous : Config.NamedSemantics Config.Variant.current Config.exInput 0 ∧ Config.NamedSemantics Config.Variant.current Config.exInput (3 / 2) ∧ Config.NamedSemantics Config.Variant.current Config.exInput (5 / 2) := @PG.Config.exInput_current_ok
+
 end PG.C08
 
 #print axioms PG.C08.moments_perm
@@ -84,3 +112,12 @@ end PG.C08
 #print axioms PG.C08.exp_reindex
 #print axioms PG.C08.particle_order_irrelevant
 #print axioms PG.C08.deme_rewards_sum_one
+#print axioms PG.C08.glue_named_semantics
+#print axioms PG.C08.glue_listing_order
+#print axioms PG.C08.glue_rename
+#print axioms PG.C08.glue_hash_independent
+#print axioms PG.C08.glue_to_moments
+#print axioms PG.C08.glue_sizes_by_dict_order_defect
+#print axioms PG.C08.glue_mig_by_sorted_names_defect
+#print axioms PG.C08.glue_deme_reward_sorted_defect
+#print axioms PG.C08.glue_nonvacuous
